@@ -1204,9 +1204,9 @@ impl World {
                 let c = self.next_read;
                 self.next_read += 1;
                 self.ghost.reads.insert(c, (id, self.ghost.max_commit_ever));
-                let r = self.call(i, CallKind::ReadIndex, ctx, |rn| {
-                    rn.read_index(c.to_le_bytes().to_vec())
-                });
+                // (-samectx: the first two requests share their context bytes, later ones are unique)
+                let bytes = if self.scen.same_read_ctx && self.ghost.reads.len() <= 2 { vec![0xaa] } else { c.to_le_bytes().to_vec() };
+                let r = self.call(i, CallKind::ReadIndex, ctx, |rn| rn.read_index(bytes));
                 r.is_some()
             }
             Action::Transfer(id, t) => {
